@@ -22,7 +22,7 @@ import torch
 from tjv.rt import gen
 from tjv.rt.aggs import make_agg
 from ._autojac import (AGG_TOL, choose_inputs, full_state, mtl_all_tensors, mtl_reference, n_rows, overlaps,
-                       set_pregrads, state_changes, storage_range, _grad_of)
+                       selection_ambiguous, set_pregrads, state_changes, storage_range, _grad_of)
 
 RULE = ("history = 1..4 calls (each with its own subset/order of requested inputs and chunk size; retained graph, "
         "the last call may free it) x edits between calls (zero_, =None, mul_, add_, replacement of random .grad "
@@ -39,7 +39,7 @@ AGGS = [
     {"name": "Mean"},
     {"name": "UPGrad"},
     {"name": "Constant", "kind": "signed", "wseed": 11},
-    {"name": "Krum", "f": 0, "k": 1},
+    {"name": "Krum", "f": 0, "k": 2},
     {"name": "TrimmedMean", "b": 1},
     {"name": "Sum"},
 ]
@@ -199,8 +199,8 @@ def run_case(case):
             return dict(base, ok=False, key="C06.frame",
                         what=f"call {j}: {what} of tensor {i} changed, which is not a requested .grad",
                         observed=what, expected="unchanged")
-        # accumulate
-        for i in sorted(req_pos):
+        # accumulate (ties are excluded: with tying Krum scores the selected rows depend on rounding)
+        for i in ([] if selection_ambiguous(case["agg"], J) else sorted(req_pos)):
             b, a = before[i], after[i]
             want = upd[i] if b["g"] is None else b["g"] + upd[i]
             had_pre |= b["g"] is not None
